@@ -43,7 +43,7 @@ COMPONENTS = {
     "stub": ["file system (SimFS) for file readers", "the disk (bytes in the op log)",
              "process restart (pristine forked process with its own history)"],
 }
-PROBES = ["copied_tree_with_Comment", "copied_tree_with_Directive", "copied_tree_with_Include_Stmt",
+PROBES = ["mutated_label_or_name_of_copy", "copied_tree_with_Comment", "copied_tree_with_Directive", "copied_tree_with_Include_Stmt",
           "copied_tree_with_Cpp", "load_under_other_std_registry", "load_with_no_parser_created",
           "mutate_then_compare_pool_ge3", "file_reader_tree_copied", "restart_load_done",
           "copy_of_copy"]
@@ -117,7 +117,9 @@ def generate(run_seed, cfg):
                         sw.choice(["none", "create_other", "create_same", "parse_unrelated"])])
         elif r < 0.95:
             ops.append(["mutate", sw.randrange(ntrees),
-                        sw.choice(["rename", "delete_stmt", "swap_children", "append_stmt"]),
+                        sw.choice(["rename", "delete_stmt", "swap_children", "append_stmt",
+                                   "relabel", "rename_construct", "edit_comment", "relabel",
+                                   "rename_construct"]),
                         sw.randrange(1000)])
         else:
             ops.append(["create", sw.choice(["f2003", "f2008"])])
@@ -366,6 +368,8 @@ def execute(case):
                 done = _mutate(pool[idx]["tree"], op[2], op[3])
                 events.append(["mutate", idx, op[2], done])
                 if done:
+                    if op[2] in ("relabel", "rename_construct"):
+                        probe("mutated_label_or_name_of_copy")
                     if sum(1 for e in pool if e) >= 3:
                         probe("mutate_then_compare_pool_ge3")
                     try:
@@ -398,6 +402,30 @@ def _mutate(tree, how, salt):
         if not names:
             return False
         names[salt % len(names)].string = "renamed_%d" % (salt % 7)
+        return True
+    if how in ("relabel", "rename_construct"):
+        # the label / construct name a statement prints lives on its reader item: a copy
+        # that shares items with its original would change the original here
+        from fparser.two.utils import StmtBase
+
+        attr = "label" if how == "relabel" else "name"
+        stmts = [n for n in walk(tree, StmtBase)
+                 if getattr(getattr(n, "item", None), attr, None) is not None]
+        if not stmts:
+            return False
+        item = stmts[salt % len(stmts)].item
+        if how == "relabel":
+            item.label = 9000 + salt % 97
+        else:
+            item.name = "rn%d" % (salt % 97)
+        return True
+    if how == "edit_comment":
+        from fparser.two.Fortran2003 import Comment
+
+        comments = [c for c in walk(tree, Comment) if c.items and c.items[0]]
+        if not comments:
+            return False
+        comments[salt % len(comments)].items[0] = "! edited %d" % salt
         return True
     blocks = [b for b in walk(tree, BlockBase) if getattr(b, "content", None)
               and len(b.content) >= 3]
